@@ -300,3 +300,52 @@ func verifHarness_solveWithHint() {
 	verifAssert(s2.solveWithHint(h) != nil, "a missing hint function is an error")
 	verifReach("solve-with-hint")
 }
+
+// processInstruction on a hint instruction (the real BlueprintGenericHint, real calldata produced by CompressHint, real
+// PackedInstruction.Unpack): whatever the hint function does - returns, fails, or PANICS (a user-supplied hint that
+// dereferences nil on an input it did not expect) - processInstruction never reports success while the output wire is
+// left unsolved: a panic either propagates or becomes an error (added after seed C06-4).
+var verifHintPanics bool
+
+func verifHintFnMayPanic(q *big.Int, ins, outs []*big.Int) error {
+	if verifHintPanics {
+		panic("hint function panics")
+	}
+	return verifHintFn(q, ins, outs)
+}
+
+func verifHarness_processInstructionHint() {
+	s := verifMkSolver(constraint.SystemR1CS, 1)
+	s.q = big.NewInt(0)
+	verifAssume(s.solved[0])
+	verifAssume(s.solved[1])
+	verifAssume(!s.solved[2])
+	h := constraint.HintMapping{HintID: 7,
+		Inputs:      []constraint.LinearExpression{{constraint.Term{CID: 5, VID: 0}}, {constraint.Term{CID: 6, VID: 1}}},
+		OutputRange: struct{ Start, End uint32 }{2, 3}}
+	bp := &constraint.BlueprintGenericHint{}
+	s.Blueprints = []constraint.Blueprint{bp}
+	bp.CompressHint(h, &s.CallData)
+	pi := constraint.PackedInstruction{BlueprintID: 0, ConstraintOffset: 0, WireOffset: 2, StartCallData: 0}
+	s.mHintsFunctions = map[csolver.HintID]csolver.Hint{7: verifHintFnMayPanic}
+	verifHintOut = verifNondetFr("hint.out")
+	verifHintErr = verifNondetBool("hint.fails")
+	verifHintPanics = verifNondetBool("hint.panics")
+	var sc scratch
+	panicked := false
+	var err error
+	func() {
+		defer func() {
+			if r := recover(); r != nil {
+				panicked = true
+			}
+		}()
+		err = s.processInstruction(pi, &sc)
+	}()
+	if !panicked && err == nil {
+		verifAssert(s.solved[2], "processInstruction reports success only when the instruction's output wire is solved")
+		verifAssert(!verifHintPanics && !verifHintErr, "processInstruction reports success only when the hint function returned normally")
+		verifAssert(s.values[2].Equal(&verifHintOut), "the hint's output lands on the output wire")
+	}
+	verifReach("process-instruction-hint")
+}
